@@ -52,6 +52,8 @@ EqualsExpectIn(vv, a, b) ==
   IF vv[a][1] # "Array" /\ vv[b][1] # "Array"
   THEN (IF vv[a][1] = "Null" \/ vv[b][1] = "Null" THEN (IF vv[a][1] = vv[b][1] THEN "yes" ELSE "no")
         ELSE IF vv[a] = <<"Double", "NaN">> \/ vv[b] = <<"Double", "NaN">> THEN "no"        \* NaN equals nothing, itself included
+        \* the two zeros of a floating-point type: whether they count as equal is left open
+        ELSE IF vv[a][1] = vv[b][1] /\ vv[a][1] \in {"Float", "Double"} /\ {vv[a][2], vv[b][2]} = {"0", "-0"} THEN "either"
         ELSE IF vv[a] = vv[b] THEN "yes" ELSE "no")
   ELSE IF vv[a][1] # vv[b][1] THEN "no"
   ELSE IF vv[a][2] = vv[b][2] THEN "yes"
